@@ -53,3 +53,16 @@ fn same_seed_same_history() {
 		}
 	}
 }
+
+/// The recorded candidate finding of profile `async` (see replays/): update 2's file lands before
+/// update 1's, the process dies, and `read_all_channel_monitors_with_updates` panics.
+#[test]
+fn recorded_async_finding_replays() {
+	simcore::runner::install_panic_hook();
+	let s = std::fs::read_to_string(concat!(env!("CARGO_MANIFEST_DIR"), "/replays/C19-async-cross-key-order.json")).unwrap();
+	let file: serde_json::Value = serde_json::from_str(&s).unwrap();
+	let out = run_isolated(|| PersistSim.replay(&file["replay"]));
+	assert!(out.harness_errors.is_empty(), "{:?}", out.harness_errors);
+	let want = file["oracle"].as_str().unwrap();
+	assert!(out.violations.iter().any(|v| v.oracle == want), "{:?}", out.violations);
+}
